@@ -94,6 +94,42 @@ fn lbh(m: tokio_postgres::config::LoadBalanceHosts) -> &'static str {
     }
 }
 
+// the inputs are rendered from deadpool's own enums, never through the `From` impls under test
+fn in_ssl(m: deadpool_postgres::SslMode) -> &'static str {
+    match m {
+        deadpool_postgres::SslMode::Disable => "disable",
+        deadpool_postgres::SslMode::Prefer => "prefer",
+        deadpool_postgres::SslMode::Require => "require",
+        #[allow(unreachable_patterns)]
+        _ => "other",
+    }
+}
+fn in_tsa(m: deadpool_postgres::TargetSessionAttrs) -> &'static str {
+    match m {
+        deadpool_postgres::TargetSessionAttrs::Any => "any",
+        deadpool_postgres::TargetSessionAttrs::ReadWrite => "read_write",
+        #[allow(unreachable_patterns)]
+        _ => "other",
+    }
+}
+fn in_cb(m: ChannelBinding) -> &'static str {
+    match m {
+        ChannelBinding::Disable => "disable",
+        ChannelBinding::Prefer => "prefer",
+        ChannelBinding::Require => "require",
+        #[allow(unreachable_patterns)]
+        _ => "other",
+    }
+}
+fn in_lbh(m: LoadBalanceHosts) -> &'static str {
+    match m {
+        LoadBalanceHosts::Disable => "disable",
+        LoadBalanceHosts::Random => "random",
+        #[allow(unreachable_patterns)]
+        _ => "other",
+    }
+}
+
 /// every getter of `tokio_postgres::Config`, as `prefix.key=value` words
 fn dump(c: &tokio_postgres::Config, p: &str) -> String {
     format!(
@@ -250,7 +286,7 @@ fn input_line(c: &Config, env_user: &Option<String>) -> String {
         opt_s(&c.dbname),
         opt_s(&c.options),
         opt_s(&c.application_name),
-        c.ssl_mode.map(|m| ssl(m.into()).to_string()).unwrap_or("-".into()),
+        c.ssl_mode.map(|m| in_ssl(m).to_string()).unwrap_or("-".into()),
         opt_s(&c.host),
         opt_list(&c.hosts, |h| hex(h.as_bytes())),
         c.hostaddr.map(|a| hex(a.to_string().as_bytes())).unwrap_or("-".into()),
@@ -260,9 +296,9 @@ fn input_line(c: &Config, env_user: &Option<String>) -> String {
         c.connect_timeout.map(|d| d.as_nanos().to_string()).unwrap_or("-".into()),
         c.keepalives.map(|k| if k { "1" } else { "0" }.to_string()).unwrap_or("-".into()),
         c.keepalives_idle.map(|d| d.as_nanos().to_string()).unwrap_or("-".into()),
-        c.target_session_attrs.map(|m| tsa(m.into()).to_string()).unwrap_or("-".into()),
-        c.channel_binding.map(|m| cb(m.into()).to_string()).unwrap_or("-".into()),
-        c.load_balance_hosts.map(|m| lbh(m.into()).to_string()).unwrap_or("-".into()),
+        c.target_session_attrs.map(|m| in_tsa(m).to_string()).unwrap_or("-".into()),
+        c.channel_binding.map(|m| in_cb(m).to_string()).unwrap_or("-".into()),
+        c.load_balance_hosts.map(|m| in_lbh(m).to_string()).unwrap_or("-".into()),
     )
 }
 
@@ -629,7 +665,39 @@ async fn wire_history(rng: &mut Rng, srv: &wire::Server) -> usize {
                 continue;
             }
             let inp = format!("pw prep {who} {} {}", hex(q.as_bytes()), types_tok(types));
-            match c.prepare_typed_cached(q, types).await {
+            // the same cache is reached through eight entry points: the inherent methods and the
+            // `GenericClient` trait, on the client and on a transaction, typed and (for an empty
+            // type list) untyped
+            let via = rng.below(4);
+            let untyped = types.is_empty() && rng.chance(50);
+            // answers scripted for the check queries of the last get() that were not used up must
+            // not hit the BEGIN / COMMIT of a transaction
+            srv.state.lock().unwrap().replies.clear();
+            let prepared = {
+                use deadpool_postgres::GenericClient as G;
+                let cm = &mut held[idx].0;
+                match (via, untyped) {
+                    (0, false) => cm.prepare_typed_cached(q, types).await,
+                    (0, true) => cm.prepare_cached(q).await,
+                    (1, false) => G::prepare_typed_cached(&*cm, q, types).await,
+                    (1, true) => G::prepare_cached(&*cm, q).await,
+                    (v, u) => match cm.transaction().await {
+                        Err(e) => Err(e),
+                        Ok(tx) => {
+                            let r = match (v, u) {
+                                (2, false) => tx.prepare_typed_cached(q, types).await,
+                                (2, true) => tx.prepare_cached(q).await,
+                                (_, false) => G::prepare_typed_cached(&tx, q, types).await,
+                                (_, true) => G::prepare_cached(&tx, q).await,
+                            };
+                            let _ = tx.commit().await;
+                            r
+                        }
+                    },
+                }
+            };
+            let c = &held[idx].0;
+            match prepared {
                 Err(_) => emit(inp, "pwobs prep failed".into(), &mut hist),
                 Ok(stmt) => {
                     let params: Vec<Box<dyn tokio_postgres::types::ToSql + Sync>> = stmt
